@@ -22,3 +22,62 @@ __CPROVER_loop_invariant(i <= s->stack.size && s2->stack.size == i)
 __CPROVER_loop_invariant(ghost_i < i ==> C1(s2, ghost_i) == ghost_e1 && C2(s2, ghost_i) == ghost_e2)
 __CPROVER_decreases(s->stack.size - i)
 //@ end
+
+//@ function TMCG_StackSecret_VTMF_CardSecret__import
+//@ contract
+/* import into a fresh object (C11: stack secrets do not reset on import) */
+__CPROVER_requires(SS_OK(self) && self->stack.size == 0)
+__CPROVER_assigns(self->stack.size, __CPROVER_object_whole(self->stack.data), __parse_end_char)
+/* C02: an accepted stack secret has 1..TMCG_MAX_CARDS entries, every index is below the size, and every
+ * i below the size occurs as an index (ghost_i arbitrary; ghost_pos[] names the position): the index
+ * component is a surjection of a finite set onto itself, i.e. a bijection.  A non-bijection is refused. */
+__CPROVER_ensures(__CPROVER_return_value ==> 1 <= self->stack.size && self->stack.size <= TMCG_MAX_CARDS)
+__CPROVER_ensures(__CPROVER_return_value && ghost_i < self->stack.size ==> SSI(self, ghost_i) < self->stack.size)
+__CPROVER_ensures(__CPROVER_return_value && ghost_i < self->stack.size ==>
+                  ghost_pos[ghost_i] < self->stack.size && SSI(self, ghost_pos[ghost_i]) == ghost_i)
+//@ loop 1
+__CPROVER_assigns(i, self->stack.size, __CPROVER_object_whole(self->stack.data), ec, __parse_end_char)
+__CPROVER_loop_invariant(i <= size && self->stack.size == i && 1 <= size && size <= MAXN)
+__CPROVER_loop_invariant(ghost_i < i ==> SSI(self, ghost_i) < size)
+__CPROVER_decreases(size - i)
+//@ loop 2
+__CPROVER_assigns(i)
+__CPROVER_loop_invariant(i <= size)
+__CPROVER_loop_invariant(ghost_i < i ==> ghost_pos[ghost_i] < size && SSI(self, ghost_pos[ghost_i]) == ghost_i)
+__CPROVER_decreases(size - i)
+//@ end
+
+//@ function SchindelhauerTMCG__TMCG_CreateStackSecret_pi
+//@ contract
+__CPROVER_requires(__CPROVER_is_fresh(self, sizeof(*self)) && SS_OK(ss) && ss->stack.size == 0 && size <= MAXN)
+__CPROVER_requires(__CPROVER_is_fresh(pi, sizeof(*pi)) && pi->size == size && pi->cap == MAXN && __CPROVER_is_fresh(pi->data, MAXN * sizeof(size_t)))
+__CPROVER_requires(__CPROVER_is_fresh(vtmf, sizeof(*vtmf)))
+__CPROVER_assigns(ss->stack.size, __CPROVER_object_whole(ss->stack.data))
+/* the secret carries exactly the given index vector */
+__CPROVER_ensures(ss->stack.size == size)
+__CPROVER_ensures(ghost_i < size ==> SSI(ss, ghost_i) == pi->data[ghost_i])
+//@ loop 1
+__CPROVER_assigns(i, ss->stack.size, __CPROVER_object_whole(ss->stack.data))
+__CPROVER_loop_invariant(i <= size && ss->stack.size == i)
+__CPROVER_loop_invariant(ghost_i < i ==> SSI(ss, ghost_i) == pi->data[ghost_i])
+__CPROVER_decreases(size - i)
+//@ end
+
+//@ function SchindelhauerTMCG__TMCG_CreateStackSecret_cyclic
+//@ contract
+__CPROVER_requires(__CPROVER_is_fresh(self, sizeof(*self)) && SS_OK(ss) && __CPROVER_is_fresh(vtmf, sizeof(*vtmf)))
+__CPROVER_requires((cyclic ? 2 : 1) <= size && size <= MAXN && __tmcg_thrown == 0)
+__CPROVER_assigns(ss->stack.size, __CPROVER_object_whole(ss->stack.data))
+__CPROVER_assigns(mod_n, ghost_jmod, ghost_jret, draw_n, ghost_val, draw_last, __tmcg_thrown)
+__CPROVER_ensures(__tmcg_thrown == 0 && ss->stack.size == size)
+/* C02: a freshly generated stack secret contains a bijection on {0..n-1} ... */
+__CPROVER_ensures(ghost_i < size ==> SSI(ss, ghost_i) < size)
+__CPROVER_ensures(!cyclic ==> ALL(a, a < size ==> ALL(b, b < a ==> SSI(ss, a) != SSI(ss, b))))
+/* ... and a cyclic shift by exactly the reported offset when a rotation was requested */
+__CPROVER_ensures(cyclic ==> __CPROVER_return_value < size && (ghost_i < size ==> SSI(ss, ghost_i) == (ghost_i + size - __CPROVER_return_value) % size))
+//@ loop 1
+__CPROVER_assigns(i, ss->stack.size, __CPROVER_object_whole(ss->stack.data))
+__CPROVER_loop_invariant(i <= size && ss->stack.size == i && pi.size == size)
+__CPROVER_loop_invariant(ALL(li, li < i ==> SSI(ss, li) == pi.data[li]))
+__CPROVER_decreases(size - i)
+//@ end
